@@ -2,6 +2,7 @@ package mount
 
 import (
 	"errors"
+	iofs "io/fs"
 	"strings"
 	"time"
 
@@ -140,7 +141,19 @@ func VerifC04Gate() {
 	}
 	c04Pre(build, t)
 	name := c04Name()
-	verifAssume(!hackpadfs.ValidPath(name))
+	// the reference for validity is io/fs.ValidPath itself, not the library's wrapper around it
+	verifAssume(!iofs.ValidPath(name))
+	if verifParam("FSKIND") == 4 && verifChoice("warm", 2) == 1 {
+		// the cache has already served every existing entry under its valid name
+		verifTag("cache", "warm")
+		for _, p := range []string{".", "a", "a/a", "b"} {
+			_, serr := hackpadfs.Stat(fs, p)
+			verifAssert(serr == nil, "warm-up Stat failed")
+			f, oerr := fs.Open(p)
+			verifAssert(oerr == nil, "warm-up Open failed")
+			_ = f.Close()
+		}
+	}
 	m := verifChoice("method", len(c04Methods))
 	verifTag("method", c04Methods[m])
 	err := c04Call(fs, m, name)
@@ -166,9 +179,23 @@ func VerifC04Accept() {
 	}
 	c04Pre(build, t)
 	name := c04Name()
-	verifAssume(hackpadfs.ValidPath(name))
+	verifAssume(iofs.ValidPath(name))
 	verifAssume(strings.IndexByte(name, 0) < 0)
-	m := verifChoice("method", 17) // single-name operations
+	m := verifChoice("method", 19) // single-name operations, and renames of an existing entry to the name
+	if m >= 17 {
+		// a valid new name is never refused as invalid (moving a directory below itself and replacing the root are)
+		old := []string{"a", "b"}[m-17]
+		verifTag("method", "Rename("+old+",valid)")
+		verifAssume(name != ".")
+		verifAssume(!strings.HasPrefix(name, old+"/"))
+		if verifParam("FSKIND") == 2 {
+			verifAssume(old != "a") // the mount point itself (finding C05-K2)
+		}
+		err := hackpadfs.Rename(fs, old, name)
+		verifReach("called")
+		verifAssert(err == nil || !errors.Is(err, hackpadfs.ErrInvalid), "a valid rename target was refused as invalid")
+		return
+	}
 	verifTag("method", c04Methods[m])
 	if m == 5 || m == 6 {
 		verifAssume(name != ".") // removing the root is refused with EINVAL by os as well
@@ -187,7 +214,7 @@ func VerifC04Separators() {
 	fs, _ := c04NewFS()
 	n := 1 + verifChoice("name.len", verifParam("NAMELEN"))
 	name := verifString("name", n)
-	verifAssume(hackpadfs.ValidPath(name))
+	verifAssume(iofs.ValidPath(name))
 	verifAssume(strings.IndexByte(name, 0) < 0)
 	verifAssume(strings.IndexByte(name, '/') < 0)
 	verifAssume(strings.IndexByte(name, '\\') >= 0 || strings.IndexByte(name, ':') >= 0)
